@@ -300,6 +300,20 @@ impl Sender {
             return out;
         }
         out.n = n;
+        // a start packet whose PDU + protocol type + label as written does not fit the 16-bit total length
+        // must have been refused (C09), and its total-length field cannot be right (C06)
+        if spec.func != Func::Frag {
+            let w0 = u16::from_be_bytes([self.buf[0], self.buf[1]]);
+            let ll_w = wire::lt_len(wire::lt_of_word(w0));
+            if plen + 2 + ll_w > 65535 {
+                if mask & O_C09 != 0 {
+                    rep.violation("C09", sig("accepts-oversize-pdu"), || format!("{} = {:?}: PDU ({}) + protocol type + label as written ({}) exceeds the 16-bit total length, an error was mandatory", Self::describe(spec), status, plen, ll_w), replay);
+                }
+                if c06 {
+                    rep.violation("C06", sig("total-length-not-representable"), || format!("{} = {:?}: total length {} does not fit 16 bits", Self::describe(spec), status, plen + 2 + ll_w), replay);
+                }
+            }
+        }
         if c06 && self.buf[n..bl] != self.master[n..bl] {
             let at = (n..bl).find(|&i| self.buf[i] != self.master[i]).unwrap();
             rep.violation("C06", sig("writes-beyond-reported-length"), || format!("{} reported {} bytes but modified byte {} of the buffer", Self::describe(spec), n, at), replay);
@@ -319,6 +333,9 @@ impl Sender {
         let p = match parsed {
             Ok(p) => p,
             Err(m) => {
+                if mask & O_C11 != 0 {
+                    rep.violation("C11", sig("emitted-bytes-are-not-a-fragment"), || format!("{} = {:?}: the emitted bytes do not parse as a GSE packet ({:?}), so neither a payload advance nor a final CRC-bearing packet can be established", Self::describe(spec), status, m), replay);
+                }
                 if c06 {
                     let b = self.buf[..std::cmp::min(n, bl)].to_vec();
                     rep.violation("C06", sig(&format!("unparseable:{:?}", m).replace(|c: char| c.is_ascii_digit(), "")), || format!("{} = {:?}: emitted bytes do not parse under TS 102 606 ({:?}): {}", Self::describe(spec), status, m, hex_short(&b, 64)), replay);
